@@ -33,6 +33,7 @@ type project struct {
 	Regex map[string]string `json:"regex,omitempty"` // name -> regex schema text
 	Enums map[string]string `json:"enums,omitempty"` // name -> enum rule text
 	Order []string          `json:"order,omitempty"` // registration order of Types (default: sorted)
+	Self  string            `json:"self,omitempty"`  // when set: the root file is named so and the root is registered as this type too
 }
 
 func call(sink callSink, op string, text []byte, texts map[string][]byte, f func() error) (ok bool) {
@@ -141,7 +142,11 @@ func bundleNumber(in []byte, sink callSink) {
 // buildProject wires a project the way the repository's own tests do: rules first,
 // then types (each with its own rules), self reference allowed.
 func buildProject(p *project) (*jschema.JSchema, error) {
-	root := jschema.New("root", p.Root)
+	rootName := "root"
+	if p.Self != "" {
+		rootName = p.Self
+	}
+	root := jschema.New(rootName, p.Root)
 	addRules := func(s *jschema.JSchema) error {
 		for _, n := range sortedKeys(p.Enums) {
 			if err := s.AddRule(n, enum.New(n, p.Enums[n])); err != nil {
@@ -175,6 +180,11 @@ func buildProject(p *project) (*jschema.JSchema, error) {
 			return root, err
 		}
 	}
+	if p.Self != "" {
+		if err := root.AddType(p.Self, root); err != nil {
+			return root, err
+		}
+	}
 	return root, nil
 }
 
@@ -198,6 +208,9 @@ func sortStrings(a []string) {
 // texts maps file names (types and rules are filed under their own names) to contents.
 func (p *project) texts() map[string][]byte {
 	t := map[string][]byte{"root": []byte(p.Root)}
+	if p.Self != "" {
+		t[p.Self] = []byte(p.Root)
+	}
 	for k, v := range p.Types {
 		t[k] = []byte(v)
 	}
